@@ -13,3 +13,4 @@ def run(ck):
     image.r_validated_before_use(ck, P, 'C14-R7')
     geometry.r1_clip_sources(ck, P)            # C03-R1: a clip that was reset must not clip (have_clip_region is the current property, the rectangles are stale)
     region.r5_4_success_writes_result(ck, P)   # C05-R4: a clip setter that reports success has replaced the clip
+    region.r5_5_copy_sets_count(ck, P)
